@@ -148,44 +148,169 @@ Proof.
     lia.
 Qed.
 
+Lemma cofactor_nondeg : forall A B s t, s * A + t * B = 1 -> 2 * Z.abs s <= Z.abs B -> 2 * Z.abs t <= Z.abs A ->
+  A <> 0 /\ B <> 0 /\ Z.abs A <> Z.abs B.
+Proof.
+  intros A B s t He Hs Ht.
+  assert (HA0 : A <> 0).
+  { intros ->. assert (t = 0) by lia. subst. lia. }
+  assert (HB0 : B <> 0).
+  { intros ->. assert (s = 0) by lia. subst. lia. }
+  split; auto. split; auto. intros Heq.
+  assert (HA1 : Z.abs A = 1).
+  { assert (HAB : A = B \/ A = - B) by lia. destruct HAB as [->| ->].
+    - apply (mul_eq_1_abs B (s + t)). lia.
+    - replace (Z.abs (- B)) with (Z.abs B) by lia. apply (mul_eq_1_abs B (t - s)). lia. }
+  assert (s = 0) by lia. assert (t = 0) by lia. subst. lia.
+Qed.
+
+Lemma scale_abs : forall x X g, 0 < g -> x = X * g -> Z.abs x = Z.abs X * g /\ Z.sgn x = Z.sgn X.
+Proof.
+  intros x X g Hg ->. split.
+  - rewrite Z.abs_mul, (Z.abs_eq g) by lia. reflexivity.
+  - rewrite Z.sgn_mul, (Z.sgn_pos g) by lia. lia.
+Qed.
+
 Lemma weak_to_spec : forall a b g s t, g = Z.gcd a b -> 0 < g -> s * a + t * b = g ->
   2 * g * Z.abs s <= Z.abs b -> 2 * g * Z.abs t <= Z.abs a -> gmp_gcdext_spec a b g s t.
 Proof.
   intros a b g s t Hg Hg0 Hbez Hs Ht.
   destruct (Z.gcd_divide_l a b) as [A HA]. destruct (Z.gcd_divide_r a b) as [B HB].
   rewrite <- Hg in HA, HB.
-  assert (He : s * A + t * B = 1) by nia.
+  destruct (scale_abs a A g Hg0 HA) as [Hab Hsa]. destruct (scale_abs b B g Hg0 HB) as [Hbb Hsb].
+  assert (He : s * A + t * B = 1).
+  { apply (Z.mul_reg_r _ _ g); [clear - Hg0; lia|]. rewrite <- Hbez at 2. rewrite HA, HB. ring. }
   assert (HsB : 2 * Z.abs s <= Z.abs B).
-  { rewrite HB, Z.abs_mul, (Z.abs_eq g) in Hs by lia. nia. }
+  { rewrite Hbb in Hs. apply (Z.mul_le_mono_pos_r _ _ g); [exact Hg0|]. clear - Hs. lia. }
   assert (HtA : 2 * Z.abs t <= Z.abs A).
-  { rewrite HA, Z.abs_mul, (Z.abs_eq g) in Ht by lia. nia. }
+  { rewrite Hab in Ht. apply (Z.mul_le_mono_pos_r _ _ g); [exact Hg0|]. clear - Ht. lia. }
   destruct (cofactor_core A B s t He HsB HtA) as [C1 C2].
-  destruct (cofactor_core B A t s ltac:(lia) HtA HsB) as [D1 D2].
-  assert (Hab : Z.abs a = Z.abs A * g) by (rewrite HA, Z.abs_mul, (Z.abs_eq g) by lia; reflexivity).
-  assert (Hbb : Z.abs b = Z.abs B * g) by (rewrite HB, Z.abs_mul, (Z.abs_eq g) by lia; reflexivity).
-  assert (Hsa : Z.sgn a = Z.sgn A) by (rewrite HA, Z.sgn_mul, (Z.sgn_pos g) by lia; lia).
-  assert (Hsb : Z.sgn b = Z.sgn B) by (rewrite HB, Z.sgn_mul, (Z.sgn_pos g) by lia; lia).
-  (* a, b <> 0 and |a| <> |b| follow from the bounds *)
-  assert (HA0 : A <> 0).
-  { intros ->. assert (Z.abs t = 0) by lia. assert (t = 0) by lia. subst. lia. }
-  assert (HB0 : B <> 0).
-  { intros ->. assert (Z.abs s = 0) by lia. assert (s = 0) by lia. subst. lia. }
-  assert (Hne : Z.abs A <> Z.abs B).
-  { intros Heq.
-    assert (HA1 : Z.abs A = 1).
-    { destruct (Z.abs_spec A) as [[_ E1]|[_ E1]], (Z.abs_spec B) as [[_ E2]|[_ E2]].
-      - assert (A = B) by lia. subst B. apply (mul_eq_1_abs A (s + t)). lia.
-      - assert (A = - B) by lia. subst A. replace (Z.abs (- B)) with (Z.abs B) by lia. apply (mul_eq_1_abs B (t - s)). lia.
-      - assert (B = - A) by lia. subst B. apply (mul_eq_1_abs A (s - t)). lia.
-      - assert (A = B) by lia. subst B. apply (mul_eq_1_abs A (s + t)). lia. }
-    assert (s = 0) by lia. assert (t = 0) by lia. subst. lia. }
+  destruct (cofactor_core B A t s ltac:(clear - He; lia) HtA HsB) as [D1 D2].
+  destruct (cofactor_nondeg A B s t He HsB HtA) as (HA0 & HB0 & Hne).
   unfold gmp_gcdext_spec. split; auto. split; auto.
-  destruct (Z.abs a =? Z.abs b) eqn:Eab; [exfalso; nia|].
+  assert (Hgne : g <> 0) by (clear - Hg0; lia).
+  assert (Eab : (Z.abs a =? Z.abs b) = false).
+  { apply Z.eqb_neq. rewrite Hab, Hbb. intros H. apply Hne. apply (Z.mul_reg_r _ _ g); [exact Hgne | exact H]. }
+  rewrite Eab.
+  assert (Hb0 : (b =? 0) = false).
+  { apply Z.eqb_neq. intros Hz. apply HB0. rewrite Hz in HB. clear - HB Hgne. symmetry in HB. apply Z.mul_eq_0 in HB. tauto. }
+  assert (Ha0 : (a =? 0) = false).
+  { apply Z.eqb_neq. intros Hz. apply HA0. rewrite Hz in HA. clear - HA Hgne. symmetry in HA. apply Z.mul_eq_0 in HA. tauto. }
+  rewrite Hb0, Ha0. cbn [orb]. rewrite Hab, Hbb, Hsa, Hsb.
   split.
-  - destruct ((b =? 0) || (Z.abs b =? 2 * g)) eqn:Eb.
-    + assert (Z.abs B = 2) by nia. rewrite Hsa. auto.
-    + assert (Z.abs B <> 2) by nia. specialize (C2 H). nia.
-  - destruct ((a =? 0) || (Z.abs a =? 2 * g)) eqn:Ea.
-    + assert (Z.abs A = 2) by nia. rewrite Hsb. auto.
-    + assert (Z.abs A <> 2) by nia. specialize (D2 H). nia.
+  - destruct (Z.abs B * g =? 2 * g) eqn:Eb.
+    + apply Z.eqb_eq in Eb. apply C1. apply (Z.mul_reg_r _ _ g); [exact Hgne | exact Eb].
+    + apply Z.eqb_neq in Eb. assert (HB2 : Z.abs B <> 2) by (intros E; apply Eb; rewrite E; reflexivity).
+      specialize (C2 HB2). clear - C2 Hg0.
+      replace (2 * g * Z.abs s) with ((2 * Z.abs s) * g) by ring. apply Z.mul_lt_mono_pos_r; auto.
+  - destruct (Z.abs A * g =? 2 * g) eqn:Ea.
+    + apply Z.eqb_eq in Ea. apply D1. apply (Z.mul_reg_r _ _ g); [exact Hgne | exact Ea].
+    + apply Z.eqb_neq in Ea. assert (HA2 : Z.abs A <> 2) by (intros E; apply Ea; rewrite E; reflexivity).
+      specialize (D2 HA2). clear - D2 Hg0.
+      replace (2 * g * Z.abs t) with ((2 * Z.abs t) * g) by ring. apply Z.mul_lt_mono_pos_r; auto.
+Qed.
+
+(* ------------------------------------------------------------------ the theorem *)
+Lemma spec_b_zero : forall a, a <> 0 -> gmp_gcdext_spec a 0 (Z.abs a) (Z.sgn a) 0.
+Proof.
+  intros a Ha. unfold gmp_gcdext_spec. rewrite Z.gcd_0_r. split; auto. split; [rewrite sgn_mul_abs; lia|].
+  replace (Z.abs a =? Z.abs 0) with false by lia. cbn [Z.eqb orb].
+  split; auto. replace ((a =? 0) || (Z.abs a =? 2 * Z.abs a)) with false by lia. lia.
+Qed.
+
+Lemma spec_b_divides : forall a b q, b <> 0 -> a = b * q -> gmp_gcdext_spec a b (Z.abs b) 0 (Z.sgn b).
+Proof.
+  intros a b q Hb Ha. unfold gmp_gcdext_spec.
+  assert (Hg : Z.gcd a b = Z.abs b).
+  { subst a. rewrite Z.gcd_comm. rewrite <- Z.gcd_abs_l. apply Z.divide_gcd_iff; [lia|].
+    exists (q * Z.sgn b). rewrite <- Z.mul_assoc, (Z.mul_comm (Z.sgn b)), Z.abs_sgn. ring. }
+  split; auto. split; [rewrite sgn_mul_abs; lia|].
+  assert (Habs : Z.abs a = Z.abs q * Z.abs b) by (subst a; rewrite Z.abs_mul; ring).
+  destruct (Z.abs a =? Z.abs b) eqn:E; [auto|].
+  split.
+  - replace ((b =? 0) || (Z.abs b =? 2 * Z.abs b)) with false by lia. lia.
+  - destruct ((a =? 0) || (Z.abs a =? 2 * Z.abs b)) eqn:E2; auto.
+    assert (Hq : 3 <= Z.abs q).
+    { destruct (Z_le_gt_dec 3 (Z.abs q)); auto. exfalso.
+      assert (Hc : Z.abs q = 0 \/ Z.abs q = 1 \/ Z.abs q = 2) by lia.
+      destruct Hc as [Hc|[Hc|Hc]]; rewrite Hc in Habs; lia. }
+    replace (Z.abs (Z.sgn b)) with 1 by (destruct b; cbn; lia). rewrite Habs. clear - Hq Hb. assert (0 < Z.abs b) by lia. nia.
+Qed.
+
+Lemma two_turn_bounds : forall tr nr ns ts nt tt q B A,
+  Z.abs tr = Z.abs q * Z.abs nr -> Z.abs nr < Z.abs tr ->
+  Z.abs tr * Z.abs ns + Z.abs nr * Z.abs ts = B -> Z.abs tr * Z.abs nt + Z.abs nr * Z.abs tt = A ->
+  2 * Z.abs nr * Z.abs ns <= B /\ 2 * Z.abs nr * Z.abs nt <= A.
+Proof.
+  intros tr nr ns ts nt tt q B A F7 Hlt A1 A2.
+  assert (H0 := Z.abs_nonneg nr). assert (H1 := Z.abs_nonneg ns). assert (H2 := Z.abs_nonneg ts).
+  assert (H3 := Z.abs_nonneg nt). assert (H4 := Z.abs_nonneg tt). assert (H5 := Z.abs_nonneg q).
+  set (Q := Z.abs q) in *. set (NR := Z.abs nr) in *. set (NS := Z.abs ns) in *. set (TS := Z.abs ts) in *.
+  set (NT := Z.abs nt) in *. set (TT := Z.abs tt) in *. set (TR := Z.abs tr) in *.
+  clearbody Q NR NS TS NT TT TR.
+  assert (Hq2 : 2 <= Q).
+  { destruct (Z_le_gt_dec 2 Q); auto. exfalso. assert (Hc : Q = 0 \/ Q = 1) by lia. destruct Hc; subst Q; lia. }
+  assert (E1 : 0 <= (Q - 2) * (NR * NS)) by (apply Z.mul_nonneg_nonneg; [lia|apply Z.mul_nonneg_nonneg; lia]).
+  assert (E2 : 0 <= (Q - 2) * (NR * NT)) by (apply Z.mul_nonneg_nonneg; [lia|apply Z.mul_nonneg_nonneg; lia]).
+  assert (E3 : 0 <= NR * TS) by (apply Z.mul_nonneg_nonneg; lia).
+  assert (E4 : 0 <= NR * TT) by (apply Z.mul_nonneg_nonneg; lia).
+  subst TR B A. split; lia.
+Qed.
+
+Theorem gcdext_spec : forall a b, exists g s t,
+  mp_gcdext a b = Ok (g, s, t) /\ gmp_gcdext_spec a b g s t.
+Proof.
+  intros a b.
+  destruct (Z.eq_dec a 0) as [Ha|Ha]; [destruct (Z.eq_dec b 0) as [Hb|Hb]|].
+  { subst. exists 0, 0, 0. split; [reflexivity|]. unfold gmp_gcdext_spec. cbn. auto. }
+  all: assert (Hnz : a <> 0 \/ b <> 0) by lia.
+  all: destruct (gcdext_loop_terminates a b) as [sf Hsf].
+  all: destruct (run_loop_exit gcdext_step (hinv a b) (hinv_step a b) _ _ _ (hinv_init a b Hnz) Hsf) as [sf' [Hinv Hx]].
+  all: apply gcdext_step_inr in Hx; destruct Hx as [<- Hz].
+  all: destruct Hinv as [[[[L1 L2] G] N] Hh].
+  all: rewrite Hz, Z.gcd_0_r in G.
+  all: unfold mp_gcdext; rewrite Hsf; cbn [bind].
+  all: assert (Hg0 : 0 < Z.gcd a b) by (assert (H := Z.gcd_nonneg a b); assert (H' := Z.gcd_eq_0 a b); lia).
+  all: set (g := if g_tr sf <? 0 then g_tr sf * -1 else g_tr sf).
+  all: set (s := if g_tr sf <? 0 then g_ts sf * -1 else g_ts sf).
+  all: set (t := if g_tr sf <? 0 then g_tt sf * -1 else g_tt sf).
+  all: assert (Hout : (if g_tr sf <? 0 then Ok (g_tr sf * -1, g_ts sf * -1, g_tt sf * -1) else Ok (g_tr sf, g_ts sf, g_tt sf)) = Ok (g, s, t))
+         by (unfold g, s, t; destruct (g_tr sf <? 0); reflexivity).
+  all: rewrite Hout; exists g, s, t; split; [reflexivity|].
+  all: assert (Hg : g = Z.gcd a b) by (unfold g; destruct (g_tr sf <? 0) eqn:E; lia).
+  all: assert (Hbez : s * a + t * b = g) by (unfold g, s, t; destruct (g_tr sf <? 0) eqn:E; lia).
+  all: assert (Habs_s : Z.abs s = Z.abs (g_ts sf)) by (unfold s; destruct (g_tr sf <? 0); lia).
+  all: assert (Habs_t : Z.abs t = Z.abs (g_tt sf)) by (unfold t; destruct (g_tr sf <? 0); lia).
+  all: assert (Hgtr : g = Z.abs (g_tr sf)) by (unfold g; destruct (g_tr sf <? 0) eqn:E; lia).
+  all: destruct Hh as [Hinit|(p & [[[P1 P2] PG] PN] & Hstep & Hpred)].
+  (* the three shapes of the exit state are the same in both branches *)
+  all: try (
+    (* no turn at all: b = 0 *)
+    assert (Hb0 : b = 0) by (rewrite Hinit in Hz; exact Hz);
+    assert (Hs : s = Z.sgn a /\ t = 0 /\ g = Z.abs a)
+      by (unfold g, s, t; rewrite Hinit; cbn [gcdext_init g_ts g_tt g_tr];
+          replace ((a =? 0) && (b =? 0)) with false by lia; destruct (a <? 0) eqn:E; lia);
+    destruct Hs as (-> & -> & ->); subst b; apply spec_b_zero; lia).
+  all: apply gcdext_step_inl in Hstep; destruct Hstep as [Hpnz Hsfeq].
+  all: assert (Hrem : Z.rem (g_tr p) (g_nr p) = 0) by (rewrite Hsfeq in Hz; exact Hz).
+  all: destruct Hpred as [Hpi|Hlt].
+  all: try (
+    (* one turn: b divides a *)
+    assert (Hb0 : b <> 0) by (rewrite Hpi in Hpnz; exact Hpnz);
+    assert (Hdiv : a = b * Z.quot a b)
+      by (assert (H := Z.quot_rem' a b); rewrite Hpi in Hrem; cbn [gcdext_init g_tr g_nr] in Hrem; lia);
+    assert (Hs : s = 0 /\ t = Z.sgn b /\ g = Z.abs b)
+      by (unfold g, s, t; rewrite Hsfeq, Hpi; cbn [gcdext_init g_ts g_tt g_tr g_ns g_nt g_nr];
+          destruct (b <? 0) eqn:E; lia);
+    destruct Hs as (-> & -> & ->); eapply spec_b_divides; eauto).
+  (* at least two turns: the last quotient is at least 2 in absolute value *)
+  all: destruct PN as (A1 & A2 & _ & _).
+  all: destruct (quot_rem_signs (g_tr p) (g_nr p) Hpnz) as (_ & _ & _ & _ & F7 & _ & _).
+  all: rewrite Hrem in F7; rewrite Z.add_0_r in F7.
+  all: assert (Hts : g_ts sf = g_ns p) by (rewrite Hsfeq; reflexivity).
+  all: assert (Htt : g_tt sf = g_nt p) by (rewrite Hsfeq; reflexivity).
+  all: assert (Htr : g_tr sf = g_nr p) by (rewrite Hsfeq; reflexivity).
+  all: destruct (two_turn_bounds _ _ _ _ _ _ _ _ _ F7 Hlt A1 A2) as [W1 W2].
+  all: apply weak_to_spec; [exact Hg | rewrite Hg; exact Hg0 | exact Hbez | | ].
+  all: rewrite Hgtr, ?Habs_s, ?Habs_t, Htr, ?Hts, ?Htt; assumption.
 Qed.
